@@ -233,6 +233,7 @@ def g_report(repo):
 }
 ''', 'external Default for FileReport (stands for #[derive(Default)])')
     g.raw('spec_status.rs')
+    g.raw('spec_report_names.rs')
     g.raw('spec_report.rs')
     g.fn(None, EC, 'report_all_failed_clauses_for_rules', spec='report_all_failed_clauses_for_rules.spec', stub=True)
     g.fn(None, RULES + 'mod.rs', 'and', impl=r'impl Status', spec='status_and.spec', stub=True, wrap_impl='impl Status')
@@ -318,10 +319,25 @@ def g_failed(repo):
     for t in ('Messages', 'RuleReport', 'UnaryComparison', 'ValueUnResolved', 'UnaryCheck', 'UnaryReport', 'BinaryComparison', 'InComparison',
               'BinaryCheck', 'BinaryReport', 'GuardClauseReport', 'DisjunctionsReport', 'GuardBlockReport', 'ClauseReport'):
         g.type(EC, t, derive=None)
+    import os
+    from vrun import VERUS_DIR
+    names = open(os.path.join(VERUS_DIR, 'spec_report_names.rs')).read()
+    g.text("""pub mod names {
+use vstd::prelude::*;
+use super::*;
+// cr_rule_name on the real ClauseReport (uninterpreted in group report)
+pub open spec fn cr_rule_name(cr: ClauseReport) -> Option<Seq<char>> {
+    match cr { ClauseReport::Rule(rr) => Some(rr.name@), _ => None }
+}
+""" + names + """} // mod names
+pub use names::*;
+""", 'spec_report_names.rs (in a submodule: the broadcast lemma of spec_failed.rs refers to it) + cr_rule_name on the real ClauseReport')
     g.raw('spec_failed.rs')
     g.fn('U-qr-resolved', RULES + 'mod.rs', 'resolved', impl=r'impl QueryResult', spec='qr_resolved.spec', wrap_impl='impl QueryResult', props=['C08', 'C09'])
     g.fn('U-qr-unresolved', RULES + 'mod.rs', 'unresolved_traversed_to', impl=r'impl QueryResult', spec='qr_unresolved.spec', wrap_impl='impl QueryResult', props=['C08', 'C09'])
     g.fn('U-failed-v', EC, 'report_all_failed_clauses_for_rules', spec='failed_clauses.spec', props=['C08', 'C09'])
+    g.unit_meta['L-failed'] = dict(function='lemma_shapes_prefix, lemma_shapes_concat_n, lemma_shapes_concat, lemma_shapes_push, lemma_entry_names_are_shape_names, lemma_shape_names_push, lemma_rule_records, lemma_rules_only',
+                                   file='/verif/verus/spec_failed.rs', clauses=dict(requires=3, ensures=8, invariant=0, decreases=4), props=['C09'], spec=None, lemma=True)
     return g
 
 
